@@ -485,3 +485,5 @@ LEVEL_TEXT = ("Machine-checked Lean 4 theorems about the executable writer/reade
 LEVEL_NOTE = ("With the default `DLM . SPACE` item of lasio.LASFile() in ~Version (Props/C01FileDlm.lean, hypothesis DlmOK instead of 'no DLM item'): C03_file_dlm, C01_file_dlm(+_wrapYes, _unwrapped), C11_file_fixed_point_dlm / C11_file_iterate_dlm (all four steering values equal), C12_file_dlm; counter-examples DLM COMMA over blank-separated data (known finding dlm-not-space), DLM FOO (KeyError); two DLM items are ignored by the reader. WHOLE FILE (Props/C12File.lean): C12_file — one object written under two configurations (version, wrap, header width, data formats of equal per-column precision, spacers, data width, data-section header) and read by Tf.readFull: the Well / Curves / Parameter / Other sections are identical, the Version items are equal once VERS and WRAP are filtered out, the steering values are the written ones, the curves are equal (C12_file_parsed through readModel; corollaries C12_file_version_swap, C12_file_wrap_swap, C12_file_layout); counter-examples: a ~Version item whose SESSION mnemonic is WRAP (SessionsSane), unequal precision. Only the header half is modelled and proved here; independence of the curve data from wrap / widths / spacers / data_width / "
               "header style is checked by the oracle on the real code (theorems in C01/C10/C11). Known finding: a ~Well value containing ':' "
               "written as 1.2 re-reads split at the last colon.")
+
+RULE = RULE + ("; ALSO (fifth session): directed streams `date-column` (a text column of ISO dates among negative numbers, unwrapped vs wrapped at data widths 24..60) and `overflowing-field` (rows of equal length with an over-wide value in different columns)")
